@@ -77,7 +77,10 @@ func stormScenario(c *sup.Ctx, r *rng.R) {
 	var ops int
 	var problems []string
 	kind := "warm"
-	if (c.Local/2)%2 == 1 {
+	if (c.Local/2)%3 == 2 {
+		kind = "cold-create" // the bucket does not exist at all when the goroutines open it
+		ops, problems = life.ColdCreateStorm(c.Tmp, disk, 2+r.Intn(6), 6, r)
+	} else if (c.Local/2)%3 == 1 {
 		kind = "cold" // nobody holds the bucket open when the goroutines open it
 		ops, problems = life.ColdOpenStorm(c.Tmp, disk, 2+r.Intn(6), 6, r)
 	} else {
